@@ -162,3 +162,45 @@ Definition cm_deserialize (mx sh : N) (bs : list N) : outcome cm :=
         if forallb (fun c => c <=? t) cs then Ok (mkCm nh nb mx sh t cs) else Err
     | [] => Err
     end)).
+
+(* ---- the reader for the signed counter types (i8 .. i64) ----
+   The 8 bytes of a cell are an i64; seen as an unsigned 64-bit pattern v the value is negative iff
+   v >= 2^63.  T::try_from_bytes accepts T::MIN <= value <= T::MAX, i.e. v <= mx or v >= 2^64 - (mx + 1).
+   The model's state holds non-negative counters only, so an image that is accepted but holds a negative
+   counter is reported as [Ok None] ("accepted, outside the model") and not kept.  [sg] = the counter type
+   is signed (then mx < 2^63); with sg = false this is cm_deserialize. *)
+Definition is_neg (sg : bool) (v : N) : bool := sg && (9223372036854775808 <=? v).
+
+Definition cell_in_range (sg : bool) (mx v : N) : bool :=
+  (v <=? mx) || (is_neg sg v && (M64 - (mx + 1) <=? v)).
+
+Fixpoint read_cells_sg (sg : bool) (mx : N) (n : nat) (bs : list N) : outcome (list N) :=
+  match n with
+  | O => Ok []
+  | S n' =>
+      if (length bs <? 8)%nat then Err
+      else
+        let v := le_val (firstn 8 bs) in
+        if negb (cell_in_range sg mx v) then Err
+        else obind (read_cells_sg sg mx n' (skipn 8 bs)) (fun r => Ok (v :: r))
+  end.
+
+(* value > total_weight || (value < 0 && value + total_weight < 0)  =>  invalid *)
+Definition cell_in_bound (sg : bool) (t v : N) : bool :=
+  if is_neg sg v then M64 - v <=? t else v <=? t.
+
+Definition cm_deserialize_sg (sg : bool) (mx sh : N) (bs : list N) : outcome (option cm) :=
+  obind (cm_parse_header sh bs) (fun '(nh, nb, flags, entries) =>
+  if negb (N.land flags (zN GenCountMin.FLAGS_IS_EMPTY) =? 0) then Ok (Some (cm_make nh nb mx sh entries))
+  else
+    if (N.of_nat (length bs) <? zN GenCountMin.PREAMBLE_LONGS_SHORT * zN GenCountMin.LONG_SIZE_BYTES
+                                + (entries + 1) * zN GenCountMin.LONG_SIZE_BYTES) then Err else
+    obind (read_cells_sg sg mx (S (N.to_nat entries)) (skipn 16 bs)) (fun cells =>
+    match cells with
+    | t :: cs =>
+        if is_neg sg t then Err                                   (* total_weight must not be negative *)
+        else if negb (forallb (cell_in_bound sg t) cs) then Err   (* counter magnitude exceeds total_weight *)
+        else if existsb (is_neg sg) cs then Ok None               (* accepted; negative counters: outside the model *)
+        else Ok (Some (mkCm nh nb mx sh t cs))
+    | [] => Err
+    end)).
